@@ -48,7 +48,16 @@ def _stars_model(ex, st, clo, args):
     return [('ok', st, SV('int', t))]
 
 
+def _is_iterable_model(ex, st, args):
+    """boltons.iterutils.is_iterable: a plain Python function object is not iterable (fact about function objects); anything else stays opaque"""
+    from pyvc.sym import sv_bool
+    if len(args.pos) == 1 and args.pos[0].k == 'func':
+        return [('ok', st, sv_bool(False))]
+    return None
+
+
 def apply(cfg, summaries=None, drop=()):
+    cfg.extern['boltons.iterutils.is_iterable'] = _is_iterable_model
     cfg.pure_models['core.TType.__stars__'] = _stars_model
     cfg.summary_result_tags.update(SUMMARY_RESULT_TAGS)
     cfg.field_types.update(FIELD_TYPES)
